@@ -74,6 +74,11 @@ def pathWithSuffix (parts : List String) (suffix : String) : Except Err OutPath 
 structure TemplateFile where
   name : String
   path : String
+  /-- the file is reachable only through a symbolic link to a *directory* below the templates directory: Jinja's
+  `get_source` opens it (plain path join), but neither `glob("**/*.j2")` (Python 3.12) nor
+  `FileSystemLoader.list_templates` (`os.walk(followlinks=False)`) descends into the link.  A file that is itself a
+  symbolic link is an ordinary entry (`path` is its resolved target, as printed by `p.resolve()`). -/
+  viaLinkedDir : Bool
   deriving DecidableEq, Repr
 
 /-- One element of `Namespace.get_all_types()`: a namespace pseudo-type or a data type. -/
@@ -144,7 +149,7 @@ def baseName (name : String) : String :=
   String.ofList ((name.toList.reverse.takeWhile fun c => c != '/').reverse)
 
 def builtinTemplateFile (a : Args) (sub name : String) : TemplateFile :=
-  ⟨name, a.pkgDir ++ "/" ++ a.lang.name ++ "/" ++ sub ++ "/" ++ name⟩
+  ⟨name, a.pkgDir ++ "/" ++ a.lang.name ++ "/" ++ sub ++ "/" ++ name, false⟩
 
 /-- The files the type generator's loader can load.  `FIND_FIRST`: a `--templates` directory replaces the
 built-in package. -/
@@ -160,7 +165,7 @@ def isJ2 (name : String) : Bool := pySuffix (baseName name) == ".j2"
 package part goes through `_filter_template_list_by_suffix`. -/
 def typeTemplates (a : Args) : List TemplateFile :=
   match a.templates with
-  | some fs => fs.filter fun f => (".j2".toList).isSuffixOf f.name.toList
+  | some fs => fs.filter fun f => (".j2".toList).isSuffixOf f.name.toList && !f.viaLinkedDir
   | none => (typeLoaderFiles a).filter fun f => isJ2 f.name
 
 /-- `type_to_template` + `filter_type_to_template` + `Environment.get_template`: the first candidate class name
@@ -169,7 +174,7 @@ top-level file answers. -/
 def resolveTemplate (files : List TemplateFile) : List String → Except Err String
   | [] => .error .noTemplate
   | c :: cs =>
-    if files.any (fun f => isJ2 f.name && pyStem (baseName f.name) == c) then
+    if files.any (fun f => !f.viaLinkedDir && isJ2 f.name && pyStem (baseName f.name) == c) then
       if files.any (fun f => f.name == c ++ ".j2") then .ok (c ++ ".j2") else .error .templateNotFound
     else resolveTemplate files cs
 
